@@ -27,7 +27,7 @@ PROPS = {
     "C15": dict(runs=[("nn", 500, 40000)], lean_module="Spade.Properties.C15"),
     "C16": dict(runs=[("shape", 500, 40000), ("small", 200, 15000)], lean_module="Spade.Properties.C16"),
     "C17": dict(runs=[("line", 500, 40000), ("small", 200, 15000)], lean_module="Spade.Properties.C17"),
-    "C18": dict(runs=[("vor", 300, 20000)], lean_module="Spade.Properties.C18"),
+    "C18": dict(runs=[("vor", 300, 20000), ("small", 400, 20000)], lean_module="Spade.Properties.C18"),
     "C19": dict(runs=[("interp", 400, 30000)], lean_module="Spade.Properties.C19"),
     "C20": dict(runs=[("refine", 300, 20000)], lean_module="Spade.Properties.C20"),
 }
